@@ -5,6 +5,7 @@ import (
 	"fmt"
 	"regexp"
 	"strconv"
+	"strings"
 
 	plush "github.com/gobuffalo/plush/v5"
 	"github.com/gobuffalo/plush/v5/parser"
@@ -829,6 +830,11 @@ func RegexPatterns(what string) {
 	if cerr != nil {
 		vrt.Assert(err != nil, what+": a pattern that does not compile is an error")
 		vrt.Assert(got == "", what+": a failed render returns no output")
+		if err != nil {
+			// the executor's regexp errors are plain values (no *syntax.Error to ask
+			// errors.As for): what the original error says must be in what Render reports
+			vrt.Assert(strings.Contains(err.Error(), cerr.Error()), what+": the error carries the original error")
+		}
 		vrt.Cover("bad pattern")
 		return
 	}
